@@ -28,12 +28,18 @@ def repo_root():
 
 
 class Module:
-    def __init__(self, rel, path, src):
+    def __init__(self, rel, path, src, transform=None):
         self.rel = rel  # e.g. 'cfg.py', 'parse/earley.py'
         self.path = path
         self.src = src
         with warnings.catch_warnings():
             warnings.simplefilter("ignore")
+            self.tree = ast.parse(src, filename=path)
+        self.transform_log = transform(self.tree) if transform is not None else []
+        if self.transform_log:
+            # positions must follow program order again (rules compare them): the transformed view gets its own text.  Its
+            # line numbers never reach a report: the view is only used to discharge obligations (report.run_rules).
+            self.src = src = ast.unparse(self.tree)
             self.tree = ast.parse(src, filename=path)
         self.lines = src.splitlines()
         self.imports = {}  # local name -> ('module', rel) | ('name', rel, name) | ('ext', dotted)
@@ -149,8 +155,10 @@ class Cls:
 
 
 class Program:
-    def __init__(self, root=None):
+    def __init__(self, root=None, transform=None):
         self.root = root or repo_root()
+        self.transform = transform
+        self._inlined = None
         self.pkg = os.path.join(self.root, PKG_REL)
         if not os.path.isdir(self.pkg):
             raise AnalysisError(f"package directory {self.pkg} not found")
@@ -175,9 +183,30 @@ class Program:
                 with open(path, encoding="utf-8") as f:
                     src = f.read()
                 try:
-                    self.modules[rel] = Module(rel, path, src)
+                    self.modules[rel] = Module(rel, path, src, self.transform)
                 except SyntaxError as e:
                     raise AnalysisError(f"{rel}: does not parse: {e}")
+
+    def inlined_views(self):
+        """views of the same tree with extracted helpers folded back into their callers (sa/inline.py): first every eligible
+        helper, then one view per helper name (a rule may know some helpers by name and only stumble over a new one)"""
+        if self.transform is not None:
+            return
+        from .inline import inline_module, callee_of_log
+        import functools
+        if self._inlined is None:
+            P2 = Program(self.root, transform=inline_module)
+            names = sorted({callee_of_log(l) for m in P2.modules.values() for l in m.transform_log})
+            self._inlined = {"*": P2 if names else None, "names": names}
+        if self._inlined["*"] is None:
+            return
+        yield "all helpers", self._inlined["*"]
+        if len(self._inlined["names"]) < 2:
+            return
+        for nm in self._inlined["names"]:
+            if nm not in self._inlined:
+                self._inlined[nm] = Program(self.root, transform=functools.partial(inline_module, only={nm}))
+            yield nm, self._inlined[nm]
 
     def digest(self):
         h = hashlib.sha256()
